@@ -10,8 +10,11 @@ import sys, os, subprocess, shutil, json, re, time
 V = os.path.dirname(os.path.dirname(os.path.abspath(__file__)))
 def sh(cmd, **kw): return subprocess.run(cmd, stdout=subprocess.PIPE, stderr=subprocess.STDOUT, text=True, **kw)
 def main():
-    args = [a for a in sys.argv[1:] if not a.startswith('--')]; tier = 'quick'
+    args = [a for a in sys.argv[1:] if not a.startswith('--')]; tier = 'quick'; plib = clib = None
     if '--tier' in sys.argv: tier = sys.argv[sys.argv.index('--tier') + 1]; args.remove(tier)
+    # demonstrations that need another build (SQLite back-end, ASan, Botan): libraries the seeding agent kept in tmpwork/ (space-separated list = several arguments of demo.sh)
+    if '--patched-lib' in sys.argv: plib = sys.argv[sys.argv.index('--patched-lib') + 1]; args.remove(plib)
+    if '--clean-lib' in sys.argv: clib = sys.argv[sys.argv.index('--clean-lib') + 1]; args.remove(clib)
     wt, n, sid, prop, checks = args[0], args[1], args[2], args[3], args[4:]
     m = f'{wt}/MUTATION/{n}'; patch = f'{m}/patch.diff'; ran = []
     sh(['git', 'checkout', '--', 'src'], cwd=wt)
@@ -20,18 +23,22 @@ def main():
     r = sh(['python3', '/root/work/mut/suite.py', wt]); suite_line = [l for l in r.stdout.splitlines() if l.startswith('BASELINE:')][-1:] or [r.stdout[-300:]]
     suite_ok = bool(suite_line) and '195/195' in suite_line[0]; ran.append(f'python3 suite.py {wt} (patched): {suite_line[0]}')
     lib = f'{wt}/_build/src/lib/libsofthsm2.so'
-    d1 = sh(['bash', f'{m}/demo.sh', lib], cwd=m, timeout=1800); ran.append(f'demo.sh <patched lib>: exit {d1.returncode}')
+    pl = [f'{wt}/tmpwork/{x}' for x in plib.split()] if plib else [lib]
+    d1 = sh(['bash', f'{m}/demo.sh'] + pl, cwd=m, timeout=1800); ran.append(f'demo.sh <patched lib{" " + plib if plib else ""}>: exit {d1.returncode}')
     sh(['git', 'checkout', '--', 'src'], cwd=wt)
     clean = None
+    if clib:
+        d0 = sh(['bash', f'{m}/demo.sh'] + [f'{wt}/tmpwork/{x}' for x in clib.split()], cwd=m, timeout=1800); ran.append(f'demo.sh <unpatched lib {clib}>: exit {d0.returncode}'); clean = 'given'
     for c in ('lib-clean.so', 'libsofthsm2-clean.so', 'clean.so'):
         if os.path.exists(f'{wt}/tmpwork/{c}'): clean = f'{wt}/tmpwork/{c}'
-    if clean is None:
+    if clean is None and not clib:
         cands = [f for f in os.listdir(f'{wt}/tmpwork')] if os.path.isdir(f'{wt}/tmpwork') else []
         cl = [f for f in cands if 'clean' in f and f.endswith('.so')] + [f for f in cands if ('orig' in f or 'unpatched' in f) and f.endswith('.so')]
         clean = f'{wt}/tmpwork/{cl[0]}' if cl else None
     if clean is None:
         sh(['python3', '/root/work/mut/suite.py', wt]); clean = lib
-    d0 = sh(['bash', f'{m}/demo.sh', clean], cwd=m, timeout=1800); ran.append(f'demo.sh <unpatched lib {os.path.basename(clean)}>: exit {d0.returncode}')
+    if not clib:
+        d0 = sh(['bash', f'{m}/demo.sh', clean], cwd=m, timeout=1800); ran.append(f'demo.sh <unpatched lib {os.path.basename(clean)}>: exit {d0.returncode}')
     confirmed = suite_ok and d1.returncode != 0 and d0.returncode == 0
     print('\n'.join(ran)); print('CONFIRMED' if confirmed else 'NOT CONFIRMED')
     if not confirmed:
